@@ -16,3 +16,60 @@ def contracts():
         out.append(solvers.step_contract(ivp.Cfg(layout, "dynamic", "fixedpoint", "ts0", q=1, d=2, pytree=True)))
     out += [errors.estimator_contract(c) for c in errors.pytree_configs()]
     return out
+
+
+def extra_checks(tier, seed):
+    """Bounded stand-in (NOT counted as proved) for the jit / vmap clause: equality of jit(f) and vmap(f) with f is
+    JAX's own specification and no contract on repository code implies it; what can be done here is to run the real
+    adaptive solves natively on a small family (three factorisations x filter / fixed-point smoother x a batch whose
+    members need different numbers of steps) and compare compiled vs uncompiled and batched vs one-at-a-time."""
+    import jax
+    import jax.numpy as jnp
+    import numpy as np
+    import probdiffeq.ivpsolve as ivpsolve
+    import probdiffeq.probdiffeq as pd
+
+    jax.config.update("jax_enable_x64", True)
+    viol, n, samples = [], 0, []
+    ssms = {"dense": pd.state_space_model_dense, "isotropic": pd.state_space_model_isotropic, "blockdiag": pd.state_space_model_blockdiag}
+    strategies = {"filter": pd.strategy_filter, "fixedpoint": pd.strategy_smoother_fixedpoint}
+    save_at = jnp.linspace(0.0, 1.0, 4)
+    rates = jnp.asarray([0.5, 3.0, 9.0] if tier == "quick" else [0.3, 1.0, 3.0, 9.0, 20.0])  # stiffer member => more steps
+
+    for (sname, mk), (stname, mkst) in ((a, b) for a in ssms.items() for b in strategies.items()):
+        def solve(rate, mk=mk, mkst=mkst):
+            vf = pd.ode(lambda y, /, *, t: -rate * y * (1.0 + 0.5 * jnp.sin(3.0 * t)) + jnp.flip(y) * 0.1)
+            u0 = jnp.asarray([1.0, 0.5])
+            tcoeffs, _ = pd.jetexpand_ode_padded_scan(num=2)(vf, (u0,), t=0.0)
+            ssm = mk()
+            prior = ssm.prior_wiener_integrated(tcoeffs)
+            con = ssm.constraint_ode_ts0(vf)
+            solver = pd.solver_mle(strategy=mkst(), constraint=con)
+            run = ivpsolve.solve_adaptive_save_at(solver=solver, error=pd.error_residual_std(constraint=con))
+            sol = run(prior, save_at=save_at, atol=1e-4, rtol=1e-3, dt0=0.05)
+            return jnp.stack([jnp.asarray(m) for m in sol.u.mean]), jnp.stack([jnp.asarray(s) for s in sol.u.std]), sol.num_steps, sol.output_scale
+
+        tag = f"{sname},{stname}"
+        try:
+            one_by_one = [solve(r) for r in rates]
+            jitted = [jax.jit(solve)(r) for r in rates[:2]]
+            batched = jax.vmap(solve)(rates)
+        except Exception as e:
+            viol.append({"contract": "extra:jit_vmap(bounded)", "obligation": tag, "reason": f"raised {type(e).__name__}: {str(e)[:200]}", "native": {"violated": True}})
+            continue
+        steps = [int(np.asarray(o[2])[-1]) for o in one_by_one]
+        for k, ref in enumerate(one_by_one):
+            n += 1
+            for nm, a, b in zip(("mean", "std", "num_steps", "output_scale"), ref, [x[k] for x in batched]):
+                if not np.allclose(np.asarray(a), np.asarray(b), rtol=1e-9, atol=1e-12):
+                    viol.append({"contract": "extra:jit_vmap(bounded)", "obligation": f"{tag},member={k}", "reason": f"vmap result differs from the one-at-a-time result in {nm} (max abs diff {float(np.max(np.abs(np.asarray(a) - np.asarray(b)))):.3e})", "native": {"violated": True}})
+        for k, ref in enumerate(one_by_one[:2]):
+            n += 1
+            for nm, a, b in zip(("mean", "std", "num_steps", "output_scale"), ref, jitted[k]):
+                if not np.allclose(np.asarray(a), np.asarray(b), rtol=1e-9, atol=1e-12):
+                    viol.append({"contract": "extra:jit_vmap(bounded)", "obligation": f"{tag},member={k}", "reason": f"jit result differs from the uncompiled result in {nm}", "native": {"violated": True}})
+        if len(set(steps)) < 2:
+            viol.append({"contract": "extra:jit_vmap(bounded)", "obligation": tag, "reason": f"harness: batch members do not need different step counts ({steps})", "native": {"violated": False}})
+        if len(samples) < 3:
+            samples.append({"run": tag, "steps_per_member": steps})
+    return [{"bounded": True, "obligations": 0, "discharged": 0, "violations": viol, "functions": {"extra:jit/vmap of solve_adaptive_save_at (bounded native comparison, not proof)": {"instances": n, "obligations": 0, "discharged": 0}}, "samples": samples}]
